@@ -5,7 +5,9 @@ from .c10 import line_of
 
 THEOREMS = ["C14_building", "C14_grid_delivered_never_grows", "C14_exported_never_shrinks", "C14_nren_co2_never_grow", "C14_step_both_sources",
             "C14_ren_never_shrinks_without_cogeneration", "C14_ratio", "C14_load_matching_used_production",
-            "C14_load_matching_factor_is_g", "C14_load_matching_without_cogeneration", "C14_rer_with_renewable_cogeneration_refuted"]
+            "C14_load_matching_factor_is_g", "C14_load_matching_without_cogeneration", "C14_load_matching_cogeneration_used",
+            "C14_load_matching_factor_is_F", "C14_load_matching_step_both_sources", "C14_load_matching_carrier",
+            "C14_rer_with_renewable_cogeneration_refuted"]
 
 
 def relate_more_pv(has_cogen):
@@ -68,12 +70,12 @@ def make_pairs(rng, count):
 
 def run(tier, seed):
     return metacheck.run("C14", tier, seed, THEOREMS, make_pairs,
-                         "theorems: without load matching, grid-delivered electricity does not grow, exports do not shrink, and under regular "
+                         "theorems: with and without load matching, grid-delivered electricity does not grow, exports do not shrink, and under regular "
                          "(regulatory) factor sets the non-renewable primary energy and the emissions of the electricity carrier do not grow in "
                          "step A and step B for k_exp in [0,1]; C14_building: the same for the whole building under the regulatory sets; RER: "
-                         "renewable energy does not shrink without cogeneration; load matching: used production monotone and 1-Lipschitz, carrier "
-                         "statements without cogeneration. Partial: load matching together with cogeneration is decided by the "
-                         "differential run on the implementation only; RER with renewable-fuelled cogeneration is a known finding",
+                         "renewable energy does not shrink without cogeneration; load matching: used production monotone and 1-Lipschitz, the "
+                         "cogenerated electricity used in a step does not grow (hc_mono), carrier and building statements with load matching; "
+                         "RER with renewable-fuelled cogeneration is a known finding",
                          "each generated building (PV, cogeneration, both, non-EPB uses, heat pumps; four regulatory locations; k_exp in [0,1]; "
                          "with and without load matching) is re-evaluated with one more EL_INSITU production line (one step, some steps, all "
                          "steps); we.a / we.b nren and co2, del.grid compared, RER for k_exp = 0",
